@@ -55,8 +55,34 @@ func Process(stmts []*proto.Statement, rwrand, rwtime bool) (retErr error) {
 			!ContainsExplain(lowered) {
 			continue
 		}
-		parsed, err := rsql.NewParser(strings.NewReader(stmts[i].Sql)).ParseStatement()
+		parser := rsql.NewParser(strings.NewReader(stmts[i].Sql))
+		parsed, err := parser.ParseStatement()
 		if err != nil {
+			continue
+		}
+		// The text may hold further statements, all of which the database driver
+		// executes. Rewrite each of them and keep them all.
+		if more, err := parser.ParseStatements(); err != nil {
+			continue
+		} else if len(more) > 0 {
+			parts := make([]string, 0, len(more)+1)
+			anyRewritten := false
+			for _, p := range append([]sql.Statement{parsed}, more...) {
+				rewriter := NewRewriter()
+				rewriter.RewriteRand = rwrand
+				rewriter.RewriteTime = rwtime
+				rwStmt, rewritten, _, err := rewriter.Do(p)
+				if err != nil {
+					parts = nil
+					break
+				}
+				anyRewritten = anyRewritten || rewritten
+				parts = append(parts, rwStmt.String())
+			}
+			if parts != nil && anyRewritten {
+				stats.Add(numRewrittenStmts, 1)
+				stmts[i].Sql = strings.Join(parts, "; ")
+			}
 			continue
 		}
 		_, stmts[i].SqlExplain = parsed.(*sql.ExplainStatement)
